@@ -221,7 +221,8 @@ def run(ctx):
         cl = CLASS.get(name)
         ctx.inst("C07-state", "field/" + name, {"class": cl[0] if cl else None, "written_by": sorted(written.get(name, []))})
         if cl is None:
-            ctx.report("C07-state", "field/" + name, "Interpreter.%s is not classified (monotone cache / paired / configuration): "
+            # (a field that does not exist on the pinned tree: nothing is known about it — not evidence of anything)
+            ctx.undecided("C07-state", "field/" + name, "Interpreter.%s is not classified (monotone cache / paired / configuration): "
                        "an error between its writes could leave the interpreter inconsistent" % name, None)
     # libraries cache: inserted only on the Continue edge of the instantiation
     gl = fb.find(ITP + "get_library")
@@ -397,7 +398,7 @@ class Discharger:
     # -------------------------------------------------------------- dispatcher
     def discharge(self, f, b, t, kind, what):
         for rule in (self.d_arity, self.d_arity_user, self.d_dominating_test, self.d_checked_key, self.d_nonempty, self.d_container_variant, self.d_variant_runs,
-                     self.d_table, self.d_counter, self.d_total_cast, self.d_const_index, self.d_front_insert, self.d_borrow, self.d_known_arith,
+                     self.d_table, self.d_counter, self.d_total_cast, self.d_const_index, self.d_front_insert, self.d_front_remove, self.d_borrow, self.d_known_arith,
                      self.d_const_input, self.d_div_guarded, self.d_zero_checked):
             r = rule(f, b, t, kind, what)
             if r is not None:
@@ -860,6 +861,70 @@ class Discharger:
         i = mir.trace_const(f, t["args"][1])
         if i and i.get("val") == 0:
             return (True, "D-front-insert", "insertion at the constant index 0 (an index <= len for every vector)")
+        return None
+
+    def d_front_remove(self, f, b, t, kind, what):
+        """`v.remove(0)` / `v.swap_remove(0)` where a test that v is not empty dominates the site: `!v.is_empty()`, `v.first()` /
+        `v.get(0)` / `v.last()` found to be Some (a match on it, or an equality with Some(..) that held)"""
+        if kind != "std-panicky" or what not in ("remove", "swap_remove") or len(t.get("args") or []) < 2:
+            return None
+        i = mir.trace_const(f, t["args"][1])
+        if not i or i.get("val") != 0:
+            return None
+        recv = mir.trace_access(f, t["args"][0])[0]
+        dom = f.dominators()
+
+        def edge_after(bb_call, want_true):
+            """the successor block taken when the boolean / Option produced by the call at bb_call is true / Some"""
+            tt = f.blocks[bb_call]["term"]
+            nb = tt.get("target")
+            for _ in range(4):
+                if nb is None:
+                    return None
+                term = f.blocks[nb]["term"]
+                if term["k"] == "switch":
+                    tg = dict((v, x) for v, x in term["targets"])
+                    return (term["otherwise"] if 0 in tg else tg.get(1)) if want_true else tg.get(0)
+                if term["k"] == "goto":
+                    nb = term["target"]
+                    continue
+                if term["k"] == "call" and callee_matches(term, "PartialEq::eq", "cmp::PartialEq>::eq", "Option::is_some"):
+                    nb2 = term.get("target")
+                    t2 = f.blocks[nb2]["term"] if nb2 is not None else None
+                    if t2 and t2["k"] == "switch":
+                        tg = dict((v, x) for v, x in t2["targets"])
+                        return t2["otherwise"] if 0 in tg else tg.get(1)
+                    return None
+                return None
+            return None
+        def root_of(o):
+            # through `&*v` / Deref::deref / as_slice: the vector the slice method is called on
+            for _ in range(5):
+                l = mir.op_local(o)
+                ds = mir.defs_of(f).get(l, []) if l is not None else []
+                if len(ds) == 1 and ds[0][0] == "call" and callee_matches(ds[0][2], "Deref::deref", "Deref>::deref", "DerefMut::deref_mut", "DerefMut>::deref_mut",
+                                                                        "Vec::as_slice", "AsRef::as_ref", "AsRef>::as_ref", "Vec::as_mut_slice"):
+                    o = ds[0][2]["args"][0]
+                    continue
+                if len(ds) == 1 and ds[0][0] == "stmt" and ds[0][3]["rv"]["k"] in ("ref", "use"):
+                    rv = ds[0][3]["rv"]
+                    pl = rv["place"] if rv["k"] == "ref" else mir.op_place(rv["op"])
+                    if pl is not None and all(e["k"] == "deref" for e in pl["proj"]):
+                        o = {"k": "copy", "place": {"local": pl["local"], "proj": []}}
+                        continue
+                break
+            return mir.trace_access(f, o)[0]
+        for bb, tt in f.calls():
+            if not tt.get("args") or root_of(tt["args"][0]) != recv:
+                continue
+            if callee_matches(tt, "Vec::is_empty", "SmallVec::is_empty", "<impl [T]>::is_empty"):
+                e = edge_after(bb, False)
+                if e is not None and e in dom[b]:
+                    return (True, "D-front-remove", "remove(0) on the !is_empty() edge")
+            if callee_matches(tt, "<impl [T]>::first", "<impl [T]>::last", "<impl [T]>::get", "Vec::first", "Vec::last"):
+                e = edge_after(bb, True)
+                if e is not None and e in dom[b]:
+                    return (True, "D-front-remove", "remove(0) where first() / get(0) was just found to be Some")
         return None
 
     def d_const_index(self, f, b, t, kind, what):
